@@ -66,6 +66,9 @@ type c20Case struct {
 	Signed   bool     `json:"root_signed,omitempty"` // the root carries the signature (exclusive c14n); shapes are applied after signing
 	Deflate  bool     `json:"deflate,omitempty"`
 	NoIssuer bool     `json:"no_idp_issuer,omitempty"` // SP without a configured IdP issuer (multi-IdP deployments)
+	// AfterPoison k>0: first a delivery whose decoding fails (c10Poisons[k-1]) is made in the same
+	// process, then this message is pre-decoded and validated
+	AfterPoison int `json:"after_failed_delivery,omitempty"`
 }
 
 func c20Apply(shape string, s string) string {
@@ -248,6 +251,15 @@ func c20Apply(shape string, s string) string {
 type c20Fields struct{ ID, InResponseTo, Destination, Version, Issuer string }
 
 func c20Exec(c c20Case) (keys []string, detail, class string) {
+	if c.AfterPoison > 0 {
+		c10SeqPoison(c.AfterPoison - 1)
+		c.AfterPoison = 0
+		keys, detail, class = c20Exec(c)
+		for i := range keys {
+			keys[i] = strings.Replace(keys[i], "C20/", "C20/after-a-failed-delivery/", 1)
+		}
+		return keys, detail, class
+	}
 	var enc string
 	switch {
 	case c.Genuine != nil:
@@ -376,7 +388,7 @@ func c20Replay(raw json.RawMessage) ([]string, string) {
 }
 
 func c20Run(r *mc.Run) {
-	r.Rule = "every document of C08's layout space (same generator and bounds) + attacker-shaped documents with an unsigned root: every combination of <=2 (quick) / <=3 (thorough) of 46 shadowing/layout shapes (namespace-prefixed and duplicated root attributes before/after the real one, two Issuers in either order, foreign-namespace / nested Issuer first, comments/CDATA/character references/whitespace/child element in Issuer, character references and raw TAB/LF/CR in an attribute value, prolog variants, quote style, attribute order, BOM, default namespace, prefix rebinding, an EncryptedAssertion whose plaintext is another Issuer before/after the Issuer or at the end, declarations of unused namespace prefixes named like the decoded attributes) x raw/DEFLATE x IdP issuer configured or not, for SSO Responses and LogoutResponses with signed and unsigned roots (shapes applied after signing); differential oracle; non-trivial = full validation accepted, so the two decoders were compared; distinct = distinct case"
+	r.Rule = "every document of C08's layout space (same generator and bounds) + attacker-shaped documents with an unsigned root: every combination of <=2 (quick) / <=3 (thorough) of 46 shadowing/layout shapes (namespace-prefixed and duplicated root attributes before/after the real one, two Issuers in either order, foreign-namespace / nested Issuer first, comments/CDATA/character references/whitespace/child element in Issuer, character references and raw TAB/LF/CR in an attribute value, prolog variants, quote style, attribute order, BOM, default namespace, prefix rebinding, an EncryptedAssertion whose plaintext is another Issuer before/after the Issuer or at the end, declarations of unused namespace prefixes named like the decoded attributes) x raw/DEFLATE x IdP issuer configured or not, for SSO Responses and LogoutResponses with signed and unsigned roots (shapes applied after signing); differential oracle; plus a genuine signed message of each kind pre-decoded and validated right after each of 7 deliveries whose decoding fails; non-trivial = full validation accepted, so the two decoders were compared; distinct = distinct case"
 	var cases []c20Case
 	for _, g := range c08Cases(r) {
 		g := g
@@ -407,6 +419,24 @@ func c20Run(r *mc.Run) {
 			})
 		}
 	}
+	// sequences (sequential, at the end): a genuine signed message pre-decoded and validated
+	// right after a delivery whose decoding failed
+	defer func() {
+		for p := range c10Poisons {
+			for _, kind := range []string{"Response", "LogoutResponse"} {
+				c := c20Case{Kind: kind, Signed: true, AfterPoison: p + 1}
+				keys, detail, class := c20Exec(c)
+				r.Eval(2)
+				r.State(1)
+				r.Transition(2)
+				r.Bucket("after-failed-delivery/" + class)
+				r.Nontrivial(fmt.Sprintf("%+v", c))
+				for _, k := range keys {
+					r.Violation(k, detail[:min(len(detail), 1500)], c)
+				}
+			}
+		}
+	}()
 	r.State(len(cases))
 	r.Par(len(cases), func(i int) {
 		c := cases[i]
